@@ -125,6 +125,7 @@ func Gen(full bool) func(p *simrt.Tape) any {
 		}
 		// slow duty requests overlapping reorgs: an answer that was under way when the roots changed
 		if p.Pct(25) {
+			pl.AnswerAtRequest = p.Bool()
 			pl.Faults = map[string][]Outcome{}
 			for _, meth := range []string{"AttesterDuties", "ProposerDuties", "SyncCommitteeDuties"} {
 				var l []Outcome
@@ -339,6 +340,7 @@ func Oracle(rec *syssim.Record, out *sim.Outcome) *simrt.Violation {
 					inflight = true
 				}
 			}
+			sortByAnswerAge(cands, pl.AnswerAtRequest)
 			if len(cands) == 0 {
 				return Viol("C03/attest-without-duty", "Attest for slot %d at %v without any completed duty fetch for epoch %d in incarnation %d", inv.Slot, inv.T, e, inc.N)
 			}
@@ -369,6 +371,14 @@ func Oracle(rec *syssim.Record, out *sim.Outcome) *simrt.Violation {
 						if inflight || cands[len(cands)-1].EndT == inv.T {
 							ok = true
 						}
+					}
+				}
+			}
+			if !ok && refreshPending(rec, inc, fetches, "attester", e, inv.Step) {
+				for _, f := range cands {
+					if match(f) {
+						ok = true
+						out.Probes["attest-from-older-answer-while-refresh-pending"]++
 					}
 				}
 			}
@@ -461,7 +471,8 @@ func Oracle(rec *syssim.Record, out *sim.Outcome) *simrt.Violation {
 					inflight = true
 				}
 			}
-			if last := done[len(done)-1]; !inflight && last.EndT != inv.T {
+			sortByAnswerAge(done, pl.AnswerAtRequest)
+			if last := done[len(done)-1]; !inflight && last.EndT != inv.T && !refreshPending(rec, inc, fetches, "proposer", e, inv.Step) {
 				if v, has := last.Prop[inv.Slot]; !has || v != inv.Validators[0] {
 					return Viol("C03/propose-replaced-duty", "Propose for slot %d validator %v at %v: the proposer duties of epoch %d obtained last (at %v, incarnation %d) do not contain that duty", inv.Slot, inv.Validators, inv.T, e, last.EndT, inc.N)
 				}
@@ -708,4 +719,57 @@ func refreshOwed(rec *syssim.Record, inc *syssim.Incarnation, fetches []*syssim.
 		}
 	}
 	return nil
+}
+
+// sortByAnswerAge orders completed duty requests by the age of the chain view their answers reflect:
+// the moment the answer was returned, or (plan.AnswerAtRequest) the moment the request arrived.
+func sortByAnswerAge(l []*syssim.DutyFetch, atRequest bool) {
+	sort.SliceStable(l, func(i, j int) bool {
+		if atRequest {
+			return l[i].Step < l[j].Step
+		}
+		return l[i].EndStep < l[j].EndStep
+	})
+}
+
+// refreshPending reports whether, at step, a head event that showed changed duty-dependent roots for
+// (kind, epoch e) has been delivered to the incarnation and no request for those duties made after
+// that event has completed yet: until it has, the jobs in place may still stem from an older answer
+// (the property replaces jobs by "the duties it then obtains"; a slow node delays the obtaining).
+func refreshPending(rec *syssim.Record, inc *syssim.Incarnation, fetches []*syssim.DutyFetch, kind string, e uint64, step int) bool {
+	var heads []*syssim.HeadDelivery
+	simrt.Crit(func() {
+		for _, h := range rec.H.Heads {
+			if h.Inc == inc.N && !h.Odd && h.Step < step {
+				heads = append(heads, h)
+			}
+		}
+	})
+	sort.SliceStable(heads, func(i, j int) bool { return heads[i].Step < heads[j].Step })
+	spe := rec.Plan.SlotsPerEpoch
+	for i := 1; i < len(heads); i++ {
+		a, b := heads[i-1], heads[i]
+		ea, eb := a.Slot/spe, b.Slot/spe
+		affected := false
+		switch {
+		case ea == eb:
+			affected = (a.Prev != b.Prev && kind == "attester" && e == eb) ||
+				(a.Cur != b.Cur && (kind == "attester" && e == eb+1 || kind == "proposer" && e == eb))
+		case eb == ea+1:
+			affected = b.Prev != a.Cur && kind == "attester" && e == eb
+		}
+		if !affected {
+			continue
+		}
+		done := false
+		for _, f := range fetches {
+			if f.Kind == kind && f.Epoch == e && f.Step > b.Step && f.EndStep != 0 && f.EndStep <= step {
+				done = true
+			}
+		}
+		if !done {
+			return true
+		}
+	}
+	return false
 }
